@@ -1976,7 +1976,8 @@ def sweep_one(ctx, name):
                 continue
             check_content_and_handles(ctx, vname, kname, src, c, doc, handles_before)
             snap = db_snapshot(doc) if not bound else None
-            before = fingerprint(src)
+            stop = _frozen_stop(src, c)
+            before = fingerprint(src, stop_at=stop)
             for mname, fn in sel:
                 if not bound:
                     c = kf(src)
@@ -1996,7 +1997,7 @@ def sweep_one(ctx, name):
                     if ho is not None:
                         ctx.fail(f"global-handed-out/{ho.split(' via ')[0]}/{cls}/{mname}", f"{vname}: after {mname} the entity holds a mutable object of the module level container {ho}: editing it in place changes every other entity and document that uses the table",
                                  {"op": "sweep", "builder": name, "kind": kname, "dir": "copy->source", "mutator": mname})
-                after = fingerprint(src)
+                after = fingerprint(src, stop_at=stop)
                 if after != before:
                     d = fp_diff(before, after)
                     ctx.fail(f"shared/{first_component(d)}/{cls}/{kname}/copy->source/{mname}",
@@ -2011,18 +2012,40 @@ def sweep_one(ctx, name):
             # ---- direction 2: mutate the source, the copy must not change
             src, kf = prep(make(v))
             c = kf(src)
-            before = fingerprint(c)
+            stop = _frozen_stop(src, c)
+            before = fingerprint(c, stop_at=stop)
             for mname, fn in sel:
                 st = run_mut(fn, src)
                 ctx.count(stream, (vname, kname, "source->copy", mname), st == "ok")
                 ctx.hist(stream, f"{kname}/source->copy/{st}")
-                after = fingerprint(c)
+                after = fingerprint(c, stop_at=stop)
                 if after != before:
                     d = fp_diff(before, after)
                     ctx.fail(f"shared/{first_component(d)}/{cls}/{kname}/source->copy/{mname}",
                              f"{vname}: after {kname}, mutating the source by {mname} changed the copy at {d}",
                              {"op": "sweep", "builder": name, "kind": kname, "dir": "source->copy", "mutator": mname})
                     before = after
+
+
+def _frozen_stop(src, c):
+    """fingerprint boundary for the mutate-then-compare sweep: the objects of the Frozen region of (source, copy) - resources that
+    the copy references without owning them (IMAGE_DEF / UNDERLAY_DEFINITION, the entries of a DICTIONARY that is not hard owner,
+    the default entry of ACDBDICTIONARYWDFLT, SPATIAL_FILTER matrices) - are compared by identity, not by content: what happens to
+    such a shared object (the owner deletes or replaces a layer, an entry ...) is not state of the copy.  Entries of hard owned
+    dictionaries and everything else are compared by content."""
+    g = Graph()
+    try:
+        fr = frozen_region(g, g.add(src), g.add(c))
+    except Exception:
+        return None
+    if not fr:
+        return None
+    ids = {id(g.nodes[i]["obj"]): (k, g.nodes[i]["obj"]) for k, i in enumerate(sorted(fr))}  # the objects are kept alive with the ids
+
+    def stop(o):
+        r = ids.get(id(o))
+        return ("frozen-ref", tname(o), r[0]) if r is not None else None
+    return stop
 
 
 def doc_fp(doc):
